@@ -68,7 +68,8 @@ PebblePrefilter(p) == AbsI(p.se - p.te) <= EffTol(p)
 PebbleFull(p, theta) == (p.hashEq \/ p.fuzzyEq) /\ PebblePrefilter(p) /\ Passes(Confidence(p), theta)
 PebbleExact(p, theta) == p.hashEq /\ PebblePrefilter(p) /\ Passes(Confidence(p), theta)
 JsonFull(p, theta) == Passes(Confidence(p), theta)
-JsonExact(p) == Passes(Confidence([p EXCEPT !.ctol = 0]), Q(99, 100))
+\* (since the repair of the JSON exact scan: same topology hash required, as in the PebbleDB backend)
+JsonExact(p) == p.hashEq /\ Passes(Confidence([p EXCEPT !.ctol = 0]), Q(99, 100))
 
 \* ------------------------------ the point space ---------------------------
 CONSTANTS MaxCount, EntGrid, TolGrid, Thetas
@@ -98,4 +99,19 @@ ConfidenceInUnit == LET c == Confidence(pt) IN IsNaN(c) \/ InUnit(c)
 Monotone == \A t1, t2 \in Thetas : Lt(t1, t2) =>
                /\ (PebbleFull(pt, t2) => PebbleFull(pt, t1))
                /\ (JsonFull(pt, t2) => JsonFull(pt, t1))
+
+\* ---- C05 at design level: a signature derived from the topology itself (IndexFunction: hashes,
+\* NodeCount = BlockCount, LoopDepth = LoopCount, the topology's entropy with tolerance 0.5, its own
+\* calls as required calls, patterns extracted from its own literals) matches that topology with
+\* confidence exactly 1 in both modes of both back ends at every threshold up to 1
+SelfPoint(p) == /\ p.hashEq /\ p.fuzzyEq /\ p.node = p.blocks /\ p.depth = p.loops /\ p.se = p.te
+                /\ p.stol > 0 /\ p.nmiss = 0 /\ p.nhit = p.npat
+IndexedFound == SelfPoint(pt) =>
+  /\ Eq(Confidence(pt), One)
+  /\ JsonExact(pt)
+  /\ \A th \in Thetas : PebbleFull(pt, th) /\ PebbleExact(pt, th) /\ JsonFull(pt, th)
+\* model sensitivity: without IndexFunction's positive tolerance the claim is FALSE (0/0 entropy score)
+SelfPointAnyTol(p) == /\ p.hashEq /\ p.fuzzyEq /\ p.node = p.blocks /\ p.depth = p.loops /\ p.se = p.te
+                      /\ p.nmiss = 0 /\ p.nhit = p.npat
+IndexedFoundAnyTol == SelfPointAnyTol(pt) => Eq(Confidence(pt), One) /\ ~IsNaN(Confidence(pt))
 =============================================================================
